@@ -4,7 +4,7 @@
    MODE resolve   line = hex(treef dump)            -> OK <resolved sexp> | ERR k|file|line|c0|c1 ... | PANIC s | OUTOFFUEL
    MODE spec      line = hex(treef dump)            -> same, for ResolveSpec.resolve_spec
    MODE nsfirst   line = hex(treef dump)            -> same, for ResolveSpec.resolve_spec_nsfirst (namespace table before scope for x.f)
-   MODE hyp       line = hex(treef dump)            -> HYP wf=t|f no_ns_shadow=t|f tree_ok=t|f flags=tttf   (Wf.wf_ast, NsShadow.no_ns_shadow, TreeOk.tree_ok, gen_rflags)
+   MODE hyp       line = hex(treef dump)            -> HYP wf=t|f no_ns_shadow=t|f tree_ok=t|f flags=tttff   (Wf.wf_ast, NsShadow.no_ns_shadow, TreeOk.tree_ok, gen_rflags: the five flags)
    MODE fixed     line = hex(treef dump)            -> same, for the resolver with all three truncate flags on
    MODE alpha     line = hex(treef dump) TAB hex(treef dump)
                                                     -> ALPHA t|f  (AlphaDef.alpha_ast on the two programs)
@@ -172,18 +172,18 @@ let () =
              print_result ast (resolve_fixed ast)
          | "spec" ->
              let ast = read_past (unhex_line line) in
-             print_result ast (resolve_spec ast)
+             print_result ast (spec_pinned ast)
          | "nsfirst" ->
              let ast = read_past (unhex_line line) in
-             print_result ast (resolve_spec_nsfirst ast)
+             print_result ast (nsfirst_pinned ast)
          | "hyp" ->
              (* the hypotheses of C09_resolve_refines_modulo_ns, and the flags of this run *)
              let ast = read_past (unhex_line line) in
              let bs x = if x then "t" else "f" in
-             print_endline (Printf.sprintf "HYP wf=%s no_ns_shadow=%s tree_ok=%s flags=%s%s%s%s" (bs (wf_ast ast)) (bs (no_ns_shadow ast))
+             print_endline (Printf.sprintf "HYP wf=%s no_ns_shadow=%s tree_ok=%s flags=%s%s%s%s%s" (bs (wf_ast ast)) (bs (no_ns_shadow_pinned ast))
                (bs (tree_ok ast))
                (bs gen_rflags.if_truncates) (bs gen_rflags.case_truncates) (bs gen_rflags.else_truncates)
-               (bs gen_rflags.access_local_first))
+               (bs gen_rflags.access_local_first) (bs gen_rflags.imports_fixpoint))
          | "order" | "order1" ->
              (* order1: the variant of statement_dependencies that counts assignment targets *)
              let r = read_resolved line in
